@@ -114,8 +114,8 @@ func mapperSessions(ctx *gal.Ctx, fake []byte) {
 	nSessions := ctx.Scale(160, 1500)
 	for s := 0; s < nSessions; s++ {
 		home := arts[rng.Intn(len(arts))] // most calls of a session are about one artifact
-		var arrays [][]pkgbytes.Range    // the real memory
-		var expected [][]pkgbytes.Range  // what the caller knows it to contain
+		var arrays [][]pkgbytes.Range     // the real memory
+		var expected [][]pkgbytes.Range   // what the caller knows it to contain
 		for i, n := 0, 1+rng.Intn(2); i < n; i++ {
 			c := 1 + rng.Intn(7)
 			if s%3 == 0 {
